@@ -12,6 +12,7 @@ import Driver.C20
 import Driver.C04
 import Driver.C18
 import Driver.C16
+import Driver.C02
 namespace Driver
 
 def dispatch (op : String) : Option Handler :=
@@ -39,6 +40,10 @@ def dispatch (op : String) : Option Handler :=
   | "pctidx" => some Verbs.pctidx
   | "fanout" => some C20.fanout
   | "chainb" => some C04.chainb
+  | "flat" => some C02.flat
+  | "optseq" => some C02.optseq
+  | "optne" => some C02.optne
+  | "conv3" => some C02.conv3
   | "tm" => some C16.tm
   | "tmrt" => some C16.tmrt
   | "fn" => some C18.noCrash
